@@ -451,6 +451,7 @@ def run(scn, oracles=(), workload_factory=None, keep_rounds=True):
     out = {"violation": None, "discard": None, "faults": {}, "probes": {}, "ticks": 0, "sig": None,
            "nontrivial": False, "ended_by": "end"}
     stats = None
+    tmpd = None
     try:
         if workload_factory == "internal":
             rec.internal = True
@@ -464,6 +465,18 @@ def run(scn, oracles=(), workload_factory=None, keep_rounds=True):
             from eudoxia.simulator import parse_args_with_defaults
             wl = wrap_workload(WorkloadGenerator(**parse_args_with_defaults(params_of(cfg, key))), rec)
         params = params_of(cfg, key)
+        tmpd = None
+        if scn.get("params_as_file"):
+            # the documented other way in: a TOML parameter file (same values; repr() of a float round-trips exactly)
+            import tempfile
+            tmpd = tempfile.mkdtemp(prefix="verif_params_")
+            pf = os.path.join(tmpd, "params.toml")
+            with open(pf, "w") as f:
+                for k_, v_ in params.items():
+                    lit = ("true" if v_ else "false") if isinstance(v_, bool) else ('"%s"' % v_ if isinstance(v_, str) else repr(v_))
+                    f.write("%s = %s\n" % (k_, lit))
+            params = pf
+            rec.probe("params_from_toml_file")
         try:
             stats = simmod.run_simulator(params, workload=wl)
         except Violation:
@@ -491,6 +504,9 @@ def run(scn, oracles=(), workload_factory=None, keep_rounds=True):
     except Discard as d:
         out["discard"] = str(d)
     finally:
+        if tmpd is not None:
+            import shutil
+            shutil.rmtree(tmpd, ignore_errors=True)
         simmod.Executor = saved_ex
         exdrv.set_log(None)
         if "uuid_seed" in ids:
